@@ -203,7 +203,7 @@ func (m *UDPMuxDefault) GetConn(ufrag string, addr net.Addr) (net.PacketConn, er
 		go func() {
 			<-muxedConn.CloseChannel()
 			verifhook.Yield("udpmux.GetConn.autoRemove")
-			m.RemoveConnByUfrag(ufrag)
+			m.removeConn(ufrag, muxedConn)
 		}()
 
 		if isIPv6 {
@@ -250,6 +250,29 @@ func (m *UDPMuxDefault) RemoveConnByUfrag(ufrag string) {
 	for _, c := range removedConns {
 		addresses := c.getAddresses()
 		for _, addr := range addresses {
+			delete(m.addressMap, addr)
+		}
+	}
+}
+
+// removeConn unregisters exactly this connection once it is closed: neither a
+// successor registered under the same ufrag nor the connection of the other
+// address family, and only the address bindings that still point to it.
+func (m *UDPMuxDefault) removeConn(ufrag string, conn *udpMuxedConn) {
+	m.mu.Lock()
+	if c, ok := m.connsIPv4[ufrag]; ok && c == conn {
+		delete(m.connsIPv4, ufrag)
+	}
+	if c, ok := m.connsIPv6[ufrag]; ok && c == conn {
+		delete(m.connsIPv6, ufrag)
+	}
+	m.mu.Unlock()
+
+	m.addressMapMu.Lock()
+	defer m.addressMapMu.Unlock()
+
+	for _, addr := range conn.getAddresses() {
+		if m.addressMap[addr] == conn {
 			delete(m.addressMap, addr)
 		}
 	}
